@@ -11,7 +11,7 @@ use serde_json::json;
 fn history(rep: &mut Report, rng: &mut Rng, idx: u64) {
     let sc = Scratch::new("c06");
     let scripted_pre = rng.chance(1, 6);
-    let limit: u64 = *rng.pick(&[0u64, 1, 2, 15, 16, 17, 18, 40, 1023, 1024, 1025, 5000]);
+    let limit: u64 = *rng.pick(&[0u64, 1, 2, 15, 16, 17, 18, 40, 1023, 1024, 1025, 5000, u64::MAX, 1 << 63, (1 << 63) + 1, i64::MAX as u64]);
     let trig = if scripted_pre {
         TrigSpec::Script { pre: true, decisions: (0..80).map(|_| rng.chance(1, 4)).collect() }
     } else {
@@ -25,10 +25,10 @@ fn history(rep: &mut Report, rng: &mut Rng, idx: u64) {
     let pre_size = match rng.below(7) {
         0 => None,
         1 => Some(0u64),
-        2 => Some(limit.saturating_sub(1)),
-        3 => Some(limit),
-        4 => Some(limit + 1),
-        5 => Some(limit * 3),
+        2 => Some(limit.saturating_sub(1).min(10_000)),
+        3 => Some(limit.min(10_000)),
+        4 => Some(limit.saturating_add(1).min(10_000)),
+        5 => Some(limit.saturating_mul(3).min(10_000)),
         _ => Some(rng.below(2000)),
     };
     if let Some(sz) = pre_size {
@@ -69,7 +69,7 @@ fn history(rep: &mut Report, rng: &mut Rng, idx: u64) {
                                     "consultation #{}: file has {} bytes, limit {}, trigger answered {:?}", judged, disk, limit, d.result));
                                 return;
                             }
-                            if disk == limit || disk == limit + 1 {
+                            if disk == limit || Some(disk) == limit.checked_add(1) {
                                 rep.count("consultations_exactly_at_the_boundary", 1);
                             }
                         }
@@ -179,6 +179,48 @@ fn concurrent(rep: &mut Report, rng: &mut Rng, idx: u64) {
     }
 }
 
+/// The log path is a symbolic link to the real file (`current.log -> app-2026-10.log`): the size shown
+/// to the policy is the size of the file behind the link.
+fn symlinked(rep: &mut Report, rng: &mut Rng, idx: u64) {
+    use crate::c04::{append_frame, take_panic};
+    use log4rs::append::rolling_file::policy::compound::trigger::size::SizeTrigger;
+    let sc = Scratch::new("c06s");
+    let real = sc.join("real-2026-10.log");
+    let pre = rng.usize_below(3000);
+    std::fs::write(&real, vec![b'x'; pre]).unwrap();
+    std::os::unix::fs::symlink(&real, sc.join(ACTIVE)).unwrap();
+    let limit = 1u64 << 40; // never reached: only the accounting is judged
+    let log = std::sync::Arc::new(std::sync::Mutex::new(vec![]));
+    let trig = RecTrigger { inner: Box::new(SizeTrigger::new(limit)), log: log.clone() };
+    let desc = json!({"log_path": "symbolic link to the real file", "pre_existing_bytes": pre});
+    rep.case(&format!("{}|{}", desc, idx), true);
+    for round in 0..2 {
+        let app = match build_appender(&sc.path, true, Box::new(crate::frames::ChunkEnc { pieces: 1 }),
+            Box::new(RecTrigger { inner: Box::new(SizeTrigger::new(limit)), log: log.clone() }),
+            Box::new(log4rs::append::rolling_file::policy::compound::roll::delete::DeleteRoller::new())) {
+            Ok(a) => a,
+            Err(e) => {
+                rep.inconclusive(&format!("cannot build appender on a symlinked path: {}", e));
+                return;
+            }
+        };
+        for seq in 0..5u32 {
+            let _ = append_frame(&app, 1, round * 10 + seq, *rng.pick(&[5usize, 60, 1100]), true);
+            let _ = take_panic();
+        }
+    }
+    let _ = trig;
+    for (k, d) in log.lock().unwrap().iter().enumerate() {
+        rep.count("policy_consultations_observed", 1);
+        rep.count("consultations_through_a_symlinked_path", 1);
+        if d.disk_len != Some(d.len_estimate) {
+            rep.violation("C06:size-estimate-differs-from-disk:symlinked-log-path", json!({"run": desc, "consultation": k,
+                "len_estimate": d.len_estimate, "on_disk": format!("{:?}", d.disk_len)}));
+            return;
+        }
+    }
+}
+
 /// A roller that sometimes fails and leaves the file in place (what a full disk or a busy archive
 /// directory does): the size shown to the policy must stay exact across the failed rotation.
 #[derive(Debug)]
@@ -255,6 +297,7 @@ pub fn run(rep: &mut Report) {
     let n = if rep.tier == "thorough" { 30_000 } else { 5_000 };
     run_cases(rep, "history", n, history);
     run_cases(rep, "flaky", if rep.tier == "thorough" { 4_000 } else { 400 }, flaky);
+    run_cases(rep, "symlinked", if rep.tier == "thorough" { 1_000 } else { 100 }, symlinked);
     let saved = std::env::var("L4V_JOBS").ok();
     std::env::set_var("L4V_JOBS", "3");
     run_cases(rep, "concurrent", if rep.tier == "thorough" { 300 } else { 30 }, concurrent);
